@@ -20,7 +20,19 @@ class WouldBlockForever(BaseException):
     """recv() on a blocking socket with nothing to read: the real call would hang."""
 
 
+LOG = []     # ordered observable effects of the provider: ('send', bytes) ('close',) ('connect', addr) ('t', name) ('ind', obj)
+
+
+class RecQueue(queue.Queue):
+    """the real queue.Queue, recording what the provider delivers to its user"""
+    def put(self, item, *a, **kw):
+        LOG.append(('ind', item))
+        return queue.Queue.put(self, item, *a, **kw)
+
+
 class FakeSocket(object):
+    fail_send = False
+
     def __init__(self):
         self.inbox = collections.deque()  # items: bytes | 'EOF' | 'ERR'
         self.sent = []
@@ -60,13 +72,18 @@ class FakeSocket(object):
     def sendall(self, b):
         if self.closed:
             raise OSError('send on closed socket')
+        if self.fail_send:
+            raise OSError(32, 'Broken pipe')
         self.sent.append(bytes(b))
+        LOG.append(('send', bytes(b)))
 
     def close(self):
         self.closed = True
+        LOG.append(('close',))
 
     def connect(self, addr):
         self.connected = addr
+        LOG.append(('connect', addr))
 
 
 class Clock(object):
@@ -123,20 +140,27 @@ class RecTimer(dulprovider.Timer):
 
     def start(self):
         self.log.append('tStart')
+        if not getattr(self, '_quiet', False):
+            LOG.append(('t', 'tStart'))
         super(RecTimer, self).start()
 
     def stop(self):
         self.log.append('tStop')
+        if not getattr(self, '_quiet', False):
+            LOG.append(('t', 'tStop'))
         super(RecTimer, self).stop()
 
     def restart(self):
         self.log.append('tRestart')
+        LOG.append(('t', 'tRestart'))
+        self._quiet = True
         # the real restart() calls stop() and start(): do not log those twice
         log, self.log = self.log, []
         try:
             super(RecTimer, self).restart()
         finally:
             self.log = log
+            self._quiet = False
 
     @property
     def running(self):
@@ -172,6 +196,7 @@ class Stepped(dulprovider.DULServiceProvider):
         # keep the real timer semantics, record the calls
         self.timer = RecTimer(artim, self.tlog)
         self.state_machine.timer = self.timer
+        self.to_service_user = RecQueue()
         self.crashed = None
 
     def step(self):
